@@ -360,6 +360,9 @@ func Expect(op Op, p St, res Result) []Alt {
 			tombAlt := Alt{Name: "tombstoned", BodyNil: true, X: XExp{Keep: copyMap(p.X), UserFree: true}, ExpFree: true, Event: true}
 			switch {
 			case p.Present && cc == "current":
+				if !live {
+					tombAlt.X = XExp{Free: true} // re-deleting a tombstone: only coherence is required
+				}
 				return []Alt{tombAlt}
 			case cc == "zero" && !live:
 				tombAlt.X = XExp{Free: true}
